@@ -105,13 +105,21 @@ def gen_action(t, r):
     return ("vacation",) + tuple(tags) + (t.hole(),)
 
 
+def vary_case(r, act):
+    """tags are case-insensitive in Sieve: an action tag may come in any letter case"""
+    if r.random() < 0.15:
+        f = r.choice([str.upper, str.capitalize, lambda x: x[:2].upper() + x[2:]])
+        return tuple(f(x) if (isinstance(x, str) and x.startswith(":") and not isinstance(x, Hole)) else x for x in act)
+    return act
+
+
 def gen_filter(r, cond_kinds=None):
     """(template conditions, template actions, matchtype, number of holes)"""
     t = Template()
     conds = [gen_condition(t, r, cond_kinds) for _ in range(r.randint(1, 3))]
     if r.random() < 0.12:
         conds.append(r.choice(conds))        # a repeated condition (last = an earlier one)
-    acts = [gen_action(t, r) for _ in range(r.randint(1, 3))]
+    acts = [vary_case(r, gen_action(t, r)) for _ in range(r.randint(1, 3))]
     return conds, acts, r.choice(["anyof", "allof"]), t.n
 
 
